@@ -237,11 +237,14 @@ Qed.
 Lemma decon_spec s :
   decon_key s = match spec_clark s with Some p => Ok p | None => Crash ValueError end.
 Proof.
-  unfold decon_key, deconstruct_clark_notation, deconstruct_clark_notation_null_default, spec_clark, py_startswith.
-  destruct s as [|c r]; cbn; [reflexivity|].
-  fold LBRACE RBRACE. destruct (N.eqb c LBRACE) eqn:E; cbn; [|reflexivity].
+  unfold decon_key, deconstruct_clark_notation, deconstruct_clark_notation_null_default, py_startswith.
+  destruct s as [|c r]; [reflexivity|].
+  change (py_prefix [123%N] (c :: r)) with (N.eqb LBRACE c && true)%bool.
+  rewrite andb_true_r, N.eqb_sym. unfold spec_clark.
+  destruct (N.eqb c LBRACE) eqn:E; [|reflexivity].
   apply N.eqb_eq in E. subst c.
-  replace (N.eqb LBRACE RBRACE) with false by reflexivity.
+  change (py_split1 (LBRACE :: r) 125%N)
+    with (match py_split1 r RBRACE with Some (a, b) => Some (LBRACE :: a, b) | None => None end).
   destruct (py_split1 r RBRACE) as [[a b]|]; reflexivity.
 Qed.
 
@@ -284,17 +287,17 @@ Definition skey_ok (dns k : str) : bool := (skey_shape k && negb (collides dns k
 Lemma present_inj dns k k' :
   skey_ok dns k = true -> skey_ok dns k' = true -> present dns k = present dns k' -> k = k'.
 Proof.
-  unfold skey_ok, skey_shape, collides. rewrite !present_spec.
-  destruct (spec_clark k) as [[[ns|] n]|] eqn:E1; destruct (spec_clark k') as [[[ns'|] n']|] eqn:E2;
-    rewrite ?andb_true_iff, ?negb_true_iff; try (intros [? ?]; discriminate); try (intros ? [? ?]; discriminate).
-  - intros _ _ H. inversion H. subst. apply spec_clark_inv in E1, E2. congruence.
-  - intros [_ C] _ H. inversion H. subst. rewrite str_eqb_refl in C. discriminate.
-  - intros _ [_ C] H. inversion H. subst. rewrite str_eqb_refl in C. discriminate.
-  - intros _ _ H. inversion H. subst. apply spec_clark_inv in E1, E2. congruence.
+  unfold skey_ok. rewrite !andb_true_iff, !negb_true_iff. intros [S1 C1] [S2 C2].
+  unfold skey_shape in S1, S2. unfold collides in C1, C2. rewrite !present_spec.
+  destruct (spec_clark k) as [[[ns|] n]|] eqn:E1; [| |discriminate];
+    (destruct (spec_clark k') as [[[ns'|] n']|] eqn:E2; [| |discriminate]);
+    intros H; inversion H; subst; apply spec_clark_inv in E1, E2; try congruence.
+  - rewrite str_eqb_refl in C1. discriminate.
+  - rewrite str_eqb_refl in C2. discriminate.
 Qed.
 
 Lemma null_false_iff {A} (l : list A) : null l = false <-> l <> [].
-Proof. destruct l; cbn; split; try congruence; intros H; try reflexivity. exfalso. apply H. reflexivity. Qed.
+Proof. destruct l; cbn; split; intros H; try discriminate; try reflexivity; try (exfalso; apply H; reflexivity). Qed.
 
 Lemma str_eqb_false a b : str_eqb a b = false <-> a <> b.
 Proof.
